@@ -97,5 +97,25 @@ func Harness_C11_q_read_write_perms() {
 		}
 	}
 	verif.Assert(c.IsReadable() == readable && c.IsWritable() == writable && c.IsObservable() == has(PermEvents), "perm-predicates")
+	// A value-get callback (the application computes the value when it is read): a reader
+	// obtains the callback's value exactly when the characteristic is readable; without "pr"
+	// it is neither stored nor handed out.
+	if verif.Choice("get-callback", 2) == 1 {
+		secret := int(verif.I64("callback-value"))
+		c.OnValueGet(func() interface{} { return secret })
+		var got interface{}
+		if verif.Choice("reader", 2) == 1 {
+			got = c.GetValueFromConnection(yyConn{3})
+		} else {
+			got = c.Characteristic.GetValue()
+		}
+		if !readable {
+			verif.Assert(got == nil, "no-pr-get-callback-value-not-revealed")
+			verif.Assert(c.Value == nil, "no-pr-get-callback-value-not-stored")
+		} else {
+			g, ok := got.(int)
+			verif.Assert(ok && g == secret, "pr-get-callback-value-is-what-the-reader-gets")
+		}
+	}
 	verif.Reach("end")
 }
